@@ -67,7 +67,8 @@ type ModSpec struct {
 
 type MemberSpec struct {
 	Name    B       `json:"name"`
-	How     string  `json:"how"`   // pkg (CONTENTS of the selected package) | line (add-files) | skel (built-in script)
+	How     string  `json:"how"`   // pkg (CONTENTS of the selected package) | line (add-files) | skel (built-in script) | recovered (a symbolic link nobody owns whose chain of links ends at a member: RecoverMissingLinks)
+	Via     B       `json:"via,omitempty"` // recovered: the member the chain ends at (the link itself points at the first hop)
 	LType   string  `json:"ltype"` // file dir node symlink tbd
 	Mod     ModSpec `json:"mod"`
 	HasUid  bool    `json:"hasuid"`
@@ -642,7 +643,7 @@ func Run(in Input) (c *common.Case) {
 		if ms[i].How == "skel" {
 			applySkel(&ms[i])
 		}
-		if ms[i].How == "pkg" {
+		if ms[i].How == "pkg" || ms[i].How == "recovered" {
 			ms[i].LType, ms[i].Skip = "tbd", true
 		}
 	}
@@ -689,6 +690,18 @@ func Run(in Input) (c *common.Case) {
 				os.Remove(extra)
 				must(os.Link(paths[i], extra))
 			}
+		}
+	}
+	// the hops of recovered links: <name> -> <name>.hop1 -> <name>.hop2 -> the member named by Via
+	for i, m := range ms {
+		if m.How == "recovered" && len(m.Via) > 0 {
+			dir := filepath.Dir(paths[i])
+			rel, err := filepath.Rel(filepath.Dir(string(m.Name)), string(m.Via))
+			must(err)
+			os.Remove(paths[i] + ".hop1")
+			os.Remove(paths[i] + ".hop2")
+			must(os.Symlink(filepath.Base(paths[i])+".hop2", dir+"/"+filepath.Base(paths[i])+".hop1"))
+			must(os.Symlink(rel, dir+"/"+filepath.Base(paths[i])+".hop2"))
 		}
 	}
 	// times last (creating children changes directory times); deepest paths first is not
